@@ -129,6 +129,20 @@ def check_qmut(ctx, relpath, classes=(), functions=None, receiver='self', file_p
         # undecided: sinks whose base is UNKNOWN are only counted
         ctx.count('write sinks with UNKNOWN provenance (undecided, not alarmed)',
                   sum(1 for ev in events if ev.kind in QMUT_KINDS and ev.base[0] == 'UNK'))
+        # ---- closing a file that may be the caller's own object (opened-or-passed-through idiom)
+        if not mutator:
+            for ev in events:
+                if ev.kind == 'mutator-call' and ev.extra == 'close' and ev.base[0] == 'FILE' and is_maybe_input(ev.base[1]):
+                    ctx.violation(Finding('R-QMUT', relpath, q, ev.stmt, '%s closes a file that is the caller\'s own open object whenever an object rather than a path was passed in' % q), oid='%s:close-maybe' % q)
+        # ---- a transformation that normally returns a new file never returns its receiver on some path (R-ALIAS: the result *is* the input)
+        if not mutator:
+            rets = [ev for ev in events if ev.kind == 'return' and ev.value is not None and ev.value[0] == 'FILE']
+            news = [ev for ev in rets if ev.value[1] == 'new']
+            selfs = [ev for ev in rets if ev.value[1] in ('self',) or (ev.value[1] or '').startswith('param:') and not (ev.value[1] or '').endswith('?')]
+            for ev in selfs:
+                if news and not ev.guarded_inplace and not any(isinstance(p_, ast.If) and 'inplace' in norm(p_.test) for p_ in parent_chain(ev.stmt)):
+                    ctx.violation(Finding('R-ALIAS', relpath, q, ev.stmt, 'this path returns the %s itself while the other paths return a new file: what the caller does to the "result" (writes, close) '
+                                          'then happens to the input' % ('receiver' if ev.value[1] == 'self' else 'argument ' + ev.value[1][6:])), oid='%s:return-self@%s' % (q, norm(ev.stmt)[:30]))
         # ---- R-ALIAS on the same walk ----
         for ev in events:
             if ev.kind in ('result-store', 'result-values') and ev.value is not None:
